@@ -140,10 +140,18 @@ def r1(model, rep):
     build = [x for x in ast.walk(fn) if isinstance(x, ast.For) and any(isinstance(y, ast.Assign) and isinstance(y.targets[0], ast.Subscript) and is_name(y.targets[0].value, gdict) for y in ast.walk(x))]
     good = False
     for b in build:
-        src = ast.unparse(b).replace('"', "'").replace(" ", "")
         tv = b.target.id if isinstance(b.target, ast.Name) else None
-        if tv and ("insys._g.attrs['groups']" in src) and ("=sys._g.attrs['groups'][%s]" % tv) in src and "!=''" in src:
-            good = True
+        if not tv or ast.unparse(b.iter).replace('"', "'").replace(" ", "") not in ("sys._g.attrs['groups'].keys()", "sys._g.attrs['groups']"):
+            continue
+        gv = [y for y in b.body if isinstance(y, ast.Assign) and isinstance(y.targets[0], ast.Name) and ast.unparse(y.value).replace('"', "'") == "sys._g.attrs['groups'][%s]" % tv]
+        iffs = [y for y in b.body if isinstance(y, ast.If) and not y.orelse and len(y.body) == 1 and isinstance(y.body[0], ast.Assign) and isinstance(y.body[0].targets[0], ast.Subscript)
+                and is_name(y.body[0].targets[0].value, gdict)]
+        if len(gv) == 1 and len(iffs) == 1:
+            G_ = gv[0].targets[0].id
+            f_ = cond_formula(iffs[0].test, {G_: Sym(("name", "GV"))})
+            w_ = cond_formula(ast.parse('GV != ""', mode="eval").body, {"GV": Sym(("name", "GV"))})
+            if equiv(f_, w_) and is_name(iffs[0].body[0].targets[0].slice, G_):
+                good = True
     if not good:
         ok = False
         rep.violation("R1", construct, where, "the set of clusters is not 'the non-empty group names of the registry'", "cluster set")
@@ -400,6 +408,25 @@ def r4(model, rep):
         if len(div) != 1 or not (is_name(div[0].value.left, AV) and is_name(div[0].value.right, WV)) or div[0].lineno < loops[0].end_lineno:
             ok = False
             rep.violation("R4", "diagram._prep_loss", "%s:%d" % (rel, loops[0].lineno), "the weighted sum is not divided by the total duration after the loop", "mean division")
+    # the weighted mean is taken exactly when phases are defined, and is written onto one phase's component rows
+    top = [x for x in fn.body if isinstance(x, ast.If) and any(y is loops[0] for y in ast.walk(x))]
+    if len(top) != 1 or ast.unparse(top[0].test).replace(" ", "") not in ("%s!={}" % PHASES, "len(%s)>0" % PHASES, PHASES):
+        ok = False
+        rep.violation("R4", "diagram._prep_loss", where, "the duration-weighted mean is taken under `%s`, expected: when phases are defined" % (ast.unparse(top[0].test) if top else "no condition"), "weighted branch condition")
+    else:
+        base = [x for x in top[0].body if isinstance(x, ast.Assign) and is_name(x.targets[0], frame)]
+        btxt = ast.unparse(base[0].value).replace('"', "'").replace(" ", "") if base else ""
+        if not (len(base) == 1 and ".Phase==list(%s.keys())[" % PHASES in btxt and btxt.endswith(".copy()")):
+            ok = False
+            rep.violation("R4", "diagram._prep_loss", where, "the averaged losses are not written onto the rows of exactly one phase (%s)" % (ast.unparse(base[0].value) if base else "no base frame"), "base frame")
+        upd = [x for x in top[0].body if isinstance(x, ast.Expr) and isinstance(x.value, ast.Call) and ast.unparse(x.value.func) == "%s.update" % frame]
+        if len(upd) != 1:
+            ok = False
+            rep.violation("R4", "diagram._prep_loss", where, "the averaged losses never replace the per-phase losses", "update missing")
+        els = [x for x in top[0].orelse if isinstance(x, ast.Assign) and is_name(x.targets[0], frame)]
+        if len(els) != 1:
+            ok = False
+            rep.violation("R4", "diagram._prep_loss", where, "without phases no loss frame is prepared", "no-phase branch")
     rep.instance("R4", "diagram._prep_loss scale and duration-weighted mean", where, ok)
     # label / colour of a node come from its own row; legend shows the maximum
     d = model.func("diagram", "_diag")
@@ -439,6 +466,18 @@ def r4(model, rep):
     if not pl or ast.unparse(pl[0].value).replace(" ", "") != "_prep_loss(loss,sys.get_sys_phases())":
         ok = False
         rep.violation("R4", "diagram._diag", "%s:%d" % (rel, d.lineno), "losses are not prepared from the given table with the system's own phases", "prep call")
+    # heat attributes are applied exactly when a loss frame is given
+    for key in ("fillcolor", "label"):
+        st_ = stores.get("%s['%s']" % (CONF, key))
+        par = getattr(st_, "_parent", None) if st_ is not None else None
+        if not (isinstance(par, ast.If) and ast.unparse(par.test).replace(" ", "") == "%sisnotNone" % LDF and not par.orelse):
+            ok = False
+            rep.violation("R4", "diagram._diag.add_node", "%s:%d" % (rel, (st_ or helper).lineno), "the heat %s is not applied exactly when a loss table is given" % key, "heat %s condition" % key)
+    if pl:
+        par = getattr(pl[0], "_parent", None)
+        if not (isinstance(par, ast.If) and ast.unparse(par.test).replace(" ", "") == "lossisnotNone"):
+            ok = False
+            rep.violation("R4", "diagram._diag", "%s:%d" % (rel, pl[0].lineno), "losses are not prepared exactly when a loss table is given", "prep condition")
     rep.instance("R4", "diagram._diag heat colour / label / legend sources", "%s:%d" % (rel, d.lineno), ok)
     hd = model.func("diagram", "make_hdiag")
     sv = [x.targets[0].id for x in ast.walk(hd) if isinstance(x, ast.Assign) and isinstance(x.targets[0], ast.Name) and ast.unparse(x.value).replace(" ", "") == "sys.solve()"]
